@@ -273,6 +273,12 @@ def path_text(k: tuple, root: str = 'task') -> str:
 
 
 FILTER_MARK = 'filter:'
+OWN_MARK = 'own:'
+
+
+def is_own_atom(text: str) -> bool:
+    return text.startswith(OWN_MARK) or text.startswith('not ' + OWN_MARK)
+
 
 
 def is_filter_atom(text: str) -> bool:
@@ -416,6 +422,14 @@ class RelEval:
                 x = nt[0] if nt and not nt[1] else (et[0] if et and not et[1] else None)
                 pend.append(((FILTER_MARK if p else 'not ' + FILTER_MARK) + ft, x))
                 continue
+            own = self._own_task_test(a)
+            if own is not None:
+                # a test of the task's own links / amounts (not of the hierarchy it hangs in); a plain "there is something to draw"
+                # test of the collection itself is discharged like a filter
+                nt, et = none_test(a, p), empty_test(a, p)
+                x = nt[0] if nt and not nt[1] else (et[0] if et and not et[1] else None)
+                pend.append(((OWN_MARK if p else 'not ' + OWN_MARK) + own, x))
+                continue
             nt = none_test(a, p)
             if nt:
                 base = f"{src(nt[0])} is None"
@@ -423,6 +437,26 @@ class RelEval:
                 continue
             pend.append((src(a)[:70] if p else 'not ' + src(a)[:70], None))
         return pend
+
+    def _own_task_test(self, a: ast.AST) -> Optional[str]:
+        """text of `a` when (locals expanded) it only talks about the task parameter and reads one of its own relations or
+        amounts - predecessors, successors, estimate, spent, .. - but not the hierarchy (parent / all_parents / children)"""
+        x = a
+        tn = self.cfg.node_containing(a)
+        if tn is not None:
+            try:
+                x = Expander(self.ctx.prog, self.f, self.ctx.typer, inline=False).expand(a, tn, stop={self.task_param})
+            except Exception:       # noqa: BLE001
+                x = a
+        bound = {n.id for c in ast.walk(x) if isinstance(c, ast.comprehension) for n in ast.walk(c.target) if isinstance(n, ast.Name)}
+        free = {n.id for n in ast.walk(x) if isinstance(n, ast.Name)} - bound - {'len', 'any', 'all', 'abs', 'bool', 'max', 'min', 'sum'}
+        if free != {self.task_param}:
+            return None
+        reads = {n.attr for n in ast.walk(x) if isinstance(n, ast.Attribute) and isinstance(n.value, ast.Name)
+                 and n.value.id == self.task_param}
+        if not reads - {'parent', 'all_parents', 'children', 'all_children'}:
+            return None
+        return src(a)[:70]
 
     def _finish(self, res: Paths, pend: list, env, at) -> Paths:
         for text, x in pend:
@@ -432,6 +466,8 @@ class RelEval:
                     pre = list(self.ev(x, env, at))
                 except Unknown:
                     pre = []
+                # `if task.parent is not None:` in front of a walk over task.all_parents: no parent, no ancestors
+                pre += [k[:-1] + ('all_parents',) for k in pre if k and k[-1] == 'parent']
                 if pre:
                     res = _discharge(res, text, pre)
         return res
